@@ -131,12 +131,132 @@ def gen_history_plain(rng, nd, ncmd):
     return ops
 
 
+def gen_history_conf(rng, nd, ncmd):
+    """configuration-change family: between the commands of a history the configuration file may rename a disk (found again by
+    UUID: --test-match-first-uuid, as `make check` does), retire a disk (emptied, `sync -E`, its line removed: a hole in the
+    positions), add a disk (it takes the first hole), reorder the disk lines.  The oracle takes every disk's position from the
+    'M' records of the content file.  Oracle-only histories (no model replay)."""
+    names = ['a', 'b', 'c', 'dir/x', 'e']
+    ops = []
+    for i in range(1, nd + 1):
+        for n in rng.sample(names, rng.randint(1, 3)):
+            ops.append(('write', 'd%d' % i, n, rng.choice([1, 1024, 2048, 3000, 4096, 5000])))
+    ops.append(('sync',))
+    kinds = []
+    directed = rng.random()
+    if directed < 0.55:
+        # a hole, then a rename (with or without something in between)
+        kinds += ['retire'] + rng.choice([[], [], ['reorder'], ['fs']]) + ['rename']
+    for _ in range(max(1, ncmd - len(kinds))):
+        kinds.append(rng.choice(['rename', 'retire', 'add', 'reorder', 'fs', 'fs', 'rename', 'add']))
+    nextd = nd + 1
+    for k in kinds:
+        if k == 'fs':
+            for _ in range(rng.randint(1, 3)):
+                d = 'd%d' % rng.randint(1, nextd - 1)
+                ops.append(rng.choice([('write', d, rng.choice(names), rng.choice(SIZES_BLK)), ('remove', d, rng.choice(names)),
+                                       ('touch', d, rng.choice(names)), ('append', d, rng.choice(names), rng.choice([1, 1024, 2000]))]))
+            ops.append(rng.choice([('sync',), ('sync',), ('sync', '-B', str(rng.randint(1, 3))), ('scrub', '-p', 'full'), ('sync', '-F')]))
+        elif k == 'add':
+            ops.append(('cfg', 'add', 'd%d' % nextd, rng.getrandbits(16)))
+            nextd += 1
+        else:
+            ops.append(('cfg', k, 'd%d' % rng.randint(1, nextd - 1), rng.getrandbits(16)))
+    ops.append(('sync',))
+    return ops
+
+
+def gen_history_badfix(rng, nd, ncmd):
+    """"bad stripe with healthy data + unsynced modification" family: a parity block is damaged behind the tool's back, scrub
+    marks the stripe bad, a file having a block in that stripe is modified (same size or not, new time-stamp) and NOT synced,
+    then fix -e / fix -b / fix -e -f / check -e run.  The content still records the blocks as synced: every level must encode
+    the SYNCED versions (version store), and check must write nothing."""
+    names = ['a', 'b', 'c', 'dir/x']
+    ops = []
+    for i in range(1, nd + 1):
+        for n in rng.sample(names, rng.randint(1, 2)):
+            ops.append(('write', 'd%d' % i, n, rng.choice([1024, 2048, 2500, 3000, 4096, 5000])))
+    ops.append(('sync',))
+    for step in range(max(1, ncmd // 2)):
+        ops.append(('badfix', rng.choice(['fix-e', 'fix-e', 'fix-b', 'fix-e-f', 'check-e']),
+                    rng.choice(['same', 'same', 'grow', 'shrink', 'touch']), rng.getrandbits(24)))
+        if rng.random() < 0.6:
+            ops.append(('sync',))
+        if rng.random() < 0.4:
+            ops.append(('write', 'd%d' % rng.randint(1, nd), rng.choice(names), rng.choice(SIZES_BLK)))
+            ops.append(('sync',))
+    ops.append(('sync',))
+    return ops
+
+
+class CArray(Array):
+    """an Array whose configuration may change between commands.  The harness identifies a disk by its DIRECTORY (`d1`, ...: FS
+    operations and the version store use it); the tool identifies it by the NAME of its `disk` line, which a rename changes;
+    names found in a content file are translated back through `dirof`."""
+
+    def __init__(self, *a, **kw):
+        super().__init__(*a, **kw)
+        self.dirof = {d: d for d in self.disks}      # disk name (configuration / content file) -> directory
+        self.retired = set()                         # directories whose disk line was removed
+        self.nren = 0
+
+    def path(self, disk, sub):
+        return os.path.join(self.root, self.dirof.get(disk, disk), sub)
+
+    def find_version(self, disk, f):
+        return super().find_version(self.dirof.get(disk, disk), f)
+
+    def name_of(self, d):
+        for n, dd in self.dirof.items():
+            if dd == d:
+                return n
+        return None
+
+    def disk_lines(self):
+        """[(name, directory)] in the order of the configuration file"""
+        res = []
+        for l in open(self.conf).read().split('\n'):
+            t = l.split()
+            if len(t) == 3 and t[0] in ('disk', 'data'):
+                res.append((t[1], os.path.basename(t[2].rstrip('/'))))
+        return res
+
+    def set_disk_lines(self, dl):
+        lines = [l for l in open(self.conf).read().split('\n') if l and l.split()[0] not in ('disk', 'data')]
+        # data lines go where they were: after the content lines, before anything that followed (pool, extra lines keep their order)
+        k = max([i for i, l in enumerate(lines) if l.split()[0] == 'content'] + [len(lines) - 1]) + 1
+        lines[k:k] = ['disk %s %s/' % (n, os.path.join(self.root, d)) for n, d in dl]
+        open(self.conf, 'w').write('\n'.join(lines) + '\n')
+
+    def parity_block(self, level, pos):
+        return self.parity_bytes(level)[pos * self.bs:(pos + 1) * self.bs]
+
+    def damage_parity(self, level, pos, garbage):
+        """overwrite one parity block behind the tool's back (the level may be split over several files)"""
+        off = pos * self.bs
+        for f in self.parity_files[level]:
+            if not os.path.exists(f):
+                continue
+            n = os.path.getsize(f)
+            if off < n:
+                st = os.stat(f)
+                with open(f, 'r+b') as g:
+                    g.seek(off)
+                    g.write(garbage[:n - off])
+                os.utime(f, ns=(st.st_atime_ns, st.st_mtime_ns))
+                return len(garbage) <= n - off
+            off -= n
+        return False
+
+
 class Hist:
     """one array driven through a history, with the invariant oracles applied after every tool command"""
 
     def __init__(self, chk, binary, shim, model, rng, nd, np_, zmode=False, with_model=True, hasher=None, **arrkw):
         self.chk, self.rng = chk, rng
-        self.arr = Array(binary, nd=nd, np_=np_, shim=shim, zmode=zmode, **arrkw)
+        self.arr = CArray(binary, nd=nd, np_=np_, shim=shim, zmode=zmode, **arrkw)
+        self.damaged = {}            # (stripe, level) -> the garbage the HARNESS wrote there (damage, not the tool's doing)
+        self.fam = {}                # counters of the configuration-change and bad-stripe families
         self.first_sync_opts = []
         self.br = Bridge(self.arr)
         self.model = model
@@ -154,6 +274,8 @@ class Hist:
     def fs_op(self, op):
         a = self.arr
         k = op[0]
+        if op[1] in a.retired or (k in ('move', 'copy', 'clone') and op[3] in a.retired) or not os.path.isdir(os.path.join(a.root, op[1])):
+            return          # the disk was retired (or is not there yet): nothing lives there
         p = a.path(op[1], op[2]) if len(op) > 2 and isinstance(op[2], str) else None
         if k == 'write':
             a.write(op[1], op[2], self.rng.randbytes(op[3]))
@@ -203,7 +325,7 @@ class Hist:
                 c = None
             cands = []
             if c:
-                for f in c['disks'].get(op[1], {'files': []})['files']:
+                for f in c['disks'].get(a.name_of(op[1]) or op[1], {'files': []})['files']:
                     q = os.path.join(base, f['sub'].decode('latin1'))
                     if f['size'] > 0 and all(b[0] == 'BLK' for b in f['blocks']) and os.path.isfile(q) and not os.path.islink(q):
                         st = os.stat(q)
@@ -239,9 +361,193 @@ class Hist:
         errs = a.check_map(st)
         perr, n = a.check_parity(st)
         self.nstripes_checked += n
+        if self.damaged:
+            # a parity block still holding the garbage the harness wrote is damage, not the tool's doing; once the tool has
+            # rewritten it, it is judged like every other block
+            import re
+            keep = []
+            for e in perr:
+                m = re.match(r'stripe (\d+) level (\d+): parity block differs', e)
+                if m and self.damaged.get((int(m.group(1)), int(m.group(2)))) == a.parity_block(int(m.group(2)), int(m.group(1))):
+                    continue
+                keep.append(e)
+            perr = keep
+            for (pos, l), g in list(self.damaged.items()):
+                if a.parity_block(l, pos) != g:
+                    del self.damaged[(pos, l)]
+                    self.fam['damaged_blocks_rewritten_by_tool'] = self.fam.get('damaged_blocks_rewritten_by_tool', 0) + 1
         for e in (errs + perr)[:3]:
             self.chk.violation('inv', 'after `%s`: %s' % (what, e), dict(self.rinfo, history=self.log, error=e))
         return st
+
+    def bump(self, k, n=1):
+        self.fam[k] = self.fam.get(k, 0) + n
+
+    def sync_cfg(self, *extra):
+        a = self.arr
+        args = ['sync'] + list(extra) + ['--force-empty', '--force-zero']
+        r = a.run(*args)
+        self.log.append(args + [r.rc])
+        self.ncmds += 1
+        st = self.invariants(' '.join(args) + ' (configuration: %s)' % ' '.join('%s=%s' % x for x in a.disk_lines()))
+        return r, st
+
+    def cfg(self, op):
+        """a change of the configuration file followed by the sync that records it; the map / parity oracles run after it, with
+        the positions read from the 'M' records of the new content file"""
+        a = self.arr
+        kind, d, bits = op[1], op[2], op[3]
+        dl = a.disk_lines()
+        active = [x[1] for x in dl]
+        self.log.append(list(op))
+        if kind == 'rename':
+            if d not in active:
+                return
+            old = a.name_of(d)
+            a.nren += 1
+            new = 'r%d' % a.nren
+            # --test-match-first-uuid resolves an unknown name to the FIRST disk line: the renamed disk goes first
+            a.set_disk_lines([(new, d)] + [x for x in dl if x[1] != d])
+            try:
+                before = {m['name']: m['pos'] for m in a.content()['maps']}
+            except Exception:
+                before = {}
+            a.dirof[new] = d
+            r, st = self.sync_cfg('--test-match-first-uuid')
+            names = {m['name']: m['pos'] for m in st['maps']} if st else {}
+            if new in names:
+                a.dirof.pop(old, None)
+                self.bump('cfg_rename')
+                if old in before and any(p < before[old] and p not in before.values() for p in range(before[old])):
+                    self.bump('cfg_rename_with_lower_hole')
+                if old in before and names[new] != before[old]:
+                    self.bump('cfg_rename_position_changed')     # not a violation by itself: the parity oracle above judges it
+            else:
+                # the tool refused the rename (or saved nothing): back to the old name so that the history can go on
+                a.dirof.pop(new, None)
+                a.set_disk_lines(dl)
+                self.bump('cfg_rename_refused')
+        elif kind == 'retire':
+            if d not in active or len(active) <= 2:
+                return
+            base = os.path.join(a.root, d)
+            for n in os.listdir(base):
+                a.remove(d, n)
+            r, st = self.sync_cfg()
+            if r.rc != 0:
+                return
+            a.set_disk_lines([x for x in dl if x[1] != d])
+            r, st = self.sync_cfg()
+            if st is not None and a.name_of(d) not in [m['name'] for m in st['maps']] and r.rc == 0:
+                a.retired.add(d)
+                a.dirof.pop(a.name_of(d), None)
+                self.bump('cfg_retire')
+            else:
+                a.set_disk_lines(dl)
+                self.bump('cfg_retire_refused')
+        elif kind == 'add':
+            if os.path.isdir(os.path.join(a.root, d)):
+                return
+            os.makedirs(os.path.join(a.root, d))
+            a.disks.append(d)
+            a.dirof[d] = d
+            k = bits % (len(dl) + 1)
+            a.set_disk_lines(dl[:k] + [(d, d)] + dl[k:])
+            for i in range(1 + bits % 2):
+                a.write(d, 'n%d' % i, self.rng.randbytes([1024, 3000, 4096][(bits >> 3) % 3]))
+            r, st = self.sync_cfg()
+            self.bump('cfg_add')
+        elif kind == 'reorder':
+            dl2 = list(dl)
+            self.rng.shuffle(dl2)
+            a.set_disk_lines(dl2)
+            r, st = self.sync_cfg()
+            self.bump('cfg_reorder')
+
+    def badfix(self, op):
+        """damage one parity block of a fully synced stripe, let scrub mark the stripe bad, modify (without sync) a file having a
+        block there, then run the filtered fix / check"""
+        a = self.arr
+        cmd, how, bits = op[1], op[2], op[3]
+        self.log.append(list(op))
+        if a.np < 2:
+            return
+        try:
+            st = a.content()
+        except Exception:
+            return
+        stripes, order = a.stripes(st)
+        cands = []
+        for pos, blocks in sorted(stripes.items()):
+            if not blocks or any(b[0] != 'BLK' for b in blocks.values()):
+                continue
+            # every file of the stripe is on disk as recorded (so that the data is healthy)
+            ok = True
+            for dp, (s_, d, f, i, h) in blocks.items():
+                q = a.path(d, f['sub'].decode('latin1'))
+                if not os.path.isfile(q) or os.path.islink(q) or a.find_version(d, f) != open(q, 'rb').read():
+                    ok = False
+            if ok and all(len(a.parity_block(l, pos)) == a.bs for l in range(a.np)):
+                cands.append(pos)
+        if not cands:
+            return
+        pos = cands[bits % len(cands)]
+        lev = (bits >> 8) % a.np
+        garbage = bytes((x * 37 + bits) & 0xff for x in range(a.bs))
+        if garbage == a.parity_block(lev, pos) or not a.damage_parity(lev, pos, garbage):
+            return
+        self.damaged[(pos, lev)] = garbage
+        self.bump('bad_parity_blocks_damaged')
+        r = a.run('scrub', '-p', 'full')
+        self.log.append(['damage-parity', pos, lev]); self.log.append(['scrub', '-p', 'full', r.rc])
+        self.ncmds += 1
+        st2 = self.invariants('scrub -p full (parity block of stripe %d level %d damaged)' % (pos, lev))
+        if st2 is None:
+            return
+        bad = [i for i, x in enumerate(st2['info']) if x and x.get('bad')]
+        if pos in bad:
+            self.bump('bad_stripes_marked_by_scrub')
+        # modify one file of the stripe, no sync
+        dp = sorted(stripes[pos])[(bits >> 12) % len(stripes[pos])]
+        s_, d, f, i, h = stripes[pos][dp]
+        sub = f['sub'].decode('latin1')
+        q = a.path(d, sub)
+        data = open(q, 'rb').read()
+        mt = os.stat(q).st_mtime_ns + 3_000_000_011
+        dd = a.dirof.get(d, d)
+        if how == 'same':
+            a.write(dd, sub, self.rng.randbytes(len(data)), mtime_ns=mt)
+        elif how == 'grow':
+            a.write(dd, sub, data + self.rng.randbytes(700), mtime_ns=mt)
+        elif how == 'shrink':
+            a.write(dd, sub, data[:max(1, len(data) - 600)], mtime_ns=mt)
+        else:
+            a.write(dd, sub, data, mtime_ns=mt)
+        self.log.append(['modify-unsynced', d, sub, how])
+        args = {'fix-e': ['fix', '-e'], 'fix-b': ['fix', '-b'], 'fix-e-f': ['fix', '-e', '-f', sub.split('/')[-1]], 'check-e': ['check', '-e']}[cmd]
+        before = a.snapshot_all()
+        r = a.run(*args)
+        self.log.append(args + [r.rc])
+        self.ncmds += 1
+        after = a.snapshot_all()
+        self.bump('bad_' + cmd.replace('-', '_'))
+        if args[0] == 'check':
+            chg = [k for part in ('data', 'parity', 'content') for k in after[part] if after[part][k] != before[part].get(k)]
+            if chg:
+                self.chk.violation('check_writes', '`check -e` on a stripe marked bad changed %s' % chg[:3], dict(self.rinfo, history=self.log))
+        else:
+            if after['data'].get((dd, sub)) != before['data'].get((dd, sub)):
+                self.chk.violation('fix_e_unsynced_written', '`%s` rewrote %s:%s, a file modified after the last sync (with -e / -b those are never fixed)' % (' '.join(args), d, sub),
+                                   dict(self.rinfo, history=self.log))
+            for (x, rel), v in a.snapshot_data().items():
+                b = before['data'].get((x, rel))
+                if v[0] == 'f' and (b is None or b[0] != 'f' or b[1] != v[1] or b[2] != v[2]):
+                    a.note_version(x, rel)
+        # the content file is untouched by fix / check: the blocks are still recorded synced with the old hashes, so every
+        # level must encode the SYNCED versions (a block still holding the harness's garbage excepted)
+        self.invariants(' '.join(args) + ' (stripe %d marked bad after its level-%d parity block was damaged; %s:%s modified [%s] and not synced)' % (pos, lev, d, sub, how))
+        if (pos, lev) not in self.damaged:
+            self.bump('bad_parity_blocks_repaired')
 
     def tool(self, op):
         a = self.arr
@@ -286,7 +592,7 @@ class Hist:
                 if kind == 'parity':
                     args = ['fix', '-d', self.rng.choice(['parity', '2-parity'][:a.np])]
                 elif kind == 'data':
-                    args = ['fix', '-d', self.rng.choice(a.disks)] + (['-m'] if self.rng.random() < 0.5 else [])
+                    args = ['fix', '-d', self.rng.choice([x[0] for x in a.disk_lines()])] + (['-m'] if self.rng.random() < 0.5 else [])
                 elif kind == 'file' and files:
                     args = ['fix', '-f', self.rng.choice(files)[1]['sub'].decode('latin1').split('/')[-1]]
                 elif kind == 'range':
@@ -329,7 +635,7 @@ class Hist:
         if self.fail:
             self.log[-1] = self.log[-1] + ['@fail'] + list(self.fail)
         st = self.invariants(' '.join(args))
-        if st is not None:
+        if st is not None and self.with_model:
             self.br.learn_hashes(st)
             # resynchronise the model parity with reality: what the all-BLK stripes encode is known
             self.resync_parity(st)
@@ -509,7 +815,11 @@ class Hist:
 
     def run(self, ops):
         for op in ops:
-            if op[0] in ('sync', 'scrub', 'fixmissing', 'rehash', 'touchcmd', 'fixsel'):
+            if op[0] == 'cfg':
+                self.cfg(op)
+            elif op[0] == 'badfix':
+                self.badfix(op)
+            elif op[0] in ('sync', 'scrub', 'fixmissing', 'rehash', 'touchcmd', 'fixsel'):
                 self.tool(op)
             else:
                 self.fs_op(op)
@@ -671,9 +981,29 @@ def main(tier, replay=None):
             kw['parity_order'] = rng.choice(['reversed', 'rotated', None])
         hists.append((nd, np_, ops, rng.getrandbits(32), kw))
 
+    # configuration-change family and bad-stripe family (oracle-only; 2..3 parity levels, also split parity / several content copies)
+    nconf = 12 if tier == 'quick' else 90
+    for h in range(nconf):
+        nd = rng.choice([3, 3, 4])
+        np_ = rng.choice([2, 2, 3])
+        ops = gen_history_conf(random.Random(rng.getrandbits(32)), nd, rng.randint(3, 6))
+        kw = {'plain': True, 'family': 'conf', 'murmur_first': False, 'splits': rng.choice([1, 1, 2]), 'ncontent': rng.choice([1, 2]),
+              'hashsize': None, 'parity_order': rng.choice([None, 'reversed'])}
+        hists.append((nd, np_, ops, rng.getrandbits(32), kw))
+    nbad = 10 if tier == 'quick' else 80
+    for h in range(nbad):
+        nd = rng.choice([2, 3, 3])
+        np_ = rng.choice([2, 2, 3])
+        ops = gen_history_badfix(random.Random(rng.getrandbits(32)), nd, rng.randint(3, 6))
+        kw = {'plain': True, 'family': 'badfix', 'murmur_first': False, 'splits': rng.choice([1, 1, 2]), 'ncontent': rng.choice([1, 2]),
+              'hashsize': rng.choice([None, 8]), 'parity_order': None}
+        hists.append((nd, np_, ops, rng.getrandbits(32), kw))
+    fam_total = {}
+
     def one(hh):
         nd, np_, ops, seed = hh[:4]
         kw = dict(hh[4]) if len(hh) > 4 else {}
+        fam = kw.pop('family', None)
         if kw.pop('plain', False):
             murmur = kw.pop('murmur_first')
             zm = kw.pop('zmode', False)
@@ -682,15 +1012,24 @@ def main(tier, replay=None):
             if murmur:
                 H.first_sync_opts = ['--test-force-murmur3']     # so that a later `rehash` has something to do
             H.rinfo = {'nd': nd, 'np': np_, 'seed': seed, 'ops': ops, 'plain': dict(kw, murmur_first=murmur)}
+            if fam:
+                H.rinfo['family'] = fam
         else:
             H = Hist(chk, binary, shim, model, random.Random(seed), nd, np_, hasher=hasher)
             H.rinfo = {'nd': nd, 'np': np_, 'seed': seed, 'ops': ops}
+        H.family = fam
         H.run(ops)
         shutil.rmtree(H.arr.root, ignore_errors=True)
         return H
     with cf.ThreadPoolExecutor(max_workers=min(8, NCPU)) as ex:
         for H in ex.map(one, hists):
             total_cmds += H.ncmds; total_stripes += H.nstripes_checked; total_model += H.model_steps
+            for k, v in H.fam.items():
+                fam_total[k] = fam_total.get(k, 0) + v
+            if H.family:
+                fam_total['%s_histories' % H.family] = fam_total.get('%s_histories' % H.family, 0) + 1
+                fam_total['%s_commands' % H.family] = fam_total.get('%s_commands' % H.family, 0) + H.ncmds
+                fam_total['%s_all_blk_stripes_recomputed' % H.family] = fam_total.get('%s_all_blk_stripes_recomputed' % H.family, 0) + H.nstripes_checked
             if len(samples) < 3:
                 samples.append({'nd': H.arr.nd, 'np': H.arr.np, 'history': H.log[:14]})
     chk.cov.update({'evaluations': total_cmds, 'distinct_nontrivial': total_cmds,
@@ -698,6 +1037,7 @@ def main(tier, replay=None):
                     'histories': nh, 'all_blk_stripes_recomputed': total_stripes, 'sync_steps_replayed_by_model': total_model,
                     'traces_validated_against_impl': total_model})
     chk.cov['samples'] = samples
+    chk.cov['families'] = dict(fam_total, rule='conf = configuration-change family (rename by UUID with --test-match-first-uuid / retire with sync -E and line removed / add / reorder; 2-3 parity levels; positions of the oracle read from the M records of the content file); badfix = parity block damaged, scrub marks the stripe bad, a file of the stripe modified and not synced, then fix -e / -b / -e -f / check -e; every level of every all-BLK stripe recomputed from the SYNCED versions after every command, check must change nothing')
     chk.cov['large_offset_trial'] = large_offset_trial(chk, binary, rng)
     chk.cov['reduced_hash_collision_trials'] = collision_trials(chk, binary, shim, hasher, rng, 2 if tier == 'quick' else 10)
     if ob['failed'] and not chk.violations:
